@@ -221,6 +221,7 @@ def run(pid: str, tier: str, seed: int, replay_file: str | None, only: str | Non
     solver_time: dict[str, float] = {}
     os.makedirs(os.path.join(VERIF, "replays", pid), exist_ok=True)
     seen_viol: set[str] = set()
+    processed_refutations: dict[str, str] = {}
     canary_results: dict[str, list[str]] = {}
     for v in verdicts:
         ob = v.ob
@@ -247,6 +248,13 @@ def run(pid: str, tier: str, seed: int, replay_file: str | None, only: str | Non
             n_disch += 1
             continue
         u = ob_unit[id(ob)]
+        pre_key = f"{ob.name}|{ob.meta.get('witness', '')}"
+        if pre_key in processed_refutations:
+            # same obligation and witness class already triaged (model, replay, VIOLATION/KNOWN line) on another path
+            if processed_refutations[pre_key] == "known":
+                n_oblig -= 1
+                n_known += 1
+            continue
         model = None
         rr = None
         inputs: dict[str, Any] = {}
@@ -340,6 +348,7 @@ def run(pid: str, tier: str, seed: int, replay_file: str | None, only: str | Non
         rec["refuted"] = True
         rec["witness_class"] = wclass
         rec["replay_confirmed"] = bool(rr and rr.confirmed)
+        processed_refutations[pre_key] = "known" if kf is not None else "violation"
         if kf is not None:
             n_known += 1
             n_oblig -= 1  # reported separately, not part of the discharged count
